@@ -1,3 +1,4 @@
 -- C04: value level (Props/C04/Values.lean: every data type's round trip through Bytes / GoValue) and
 -- package level (Props/C04/Package.lean: the same values inside a PARAMS package with their format)
 import Dblib.Props.C04.Values
+import Dblib.Props.C04.Package
